@@ -44,7 +44,7 @@ def run(ctx):
     vf.tlc_mc("MC_GraphLog", "MC_GraphLog_neg_walk_through", expect_violation="InvReferenceMeetsContract", workers=4, timeout=600)
     ctx.cov["tlc_runs"].append({"run": "negative:walk_through", "outcome": "fails as required (InvReferenceMeetsContract)"})
     n_enum = len(cases)
-    k = ctx.q(2500, 14000)
+    k = ctx.q(2500, 6000)
     small = [c for c in cases if len(c["par"]) <= 4]
     big = [c for c in cases if len(c["par"]) > 4]
     picked = small + (big if len(big) <= k else rnd.sample(big, k))
@@ -59,7 +59,7 @@ def run(ctx):
     t1 = ctx.path("replay.ndjson")
     ctx.harness("index", ["graph-replay", "--in", cf, "--out", t1, "--seed", ctx.seed], env=env, timeout=1800)
     t2 = ctx.path("random.ndjson")
-    ctx.harness("index", ["graph-random", "--out", t2, "--seed", ctx.seed, "--n", ctx.q(40, 400), "--sets", 10,
+    ctx.harness("index", ["graph-random", "--out", t2, "--seed", ctx.seed, "--n", ctx.q(40, 150), "--sets", 10,
                           "--maxn", 14], env=env, timeout=1800)
     sig = lambda rec, verdict: "%s:skip=%s" % (verdict, rec.get("skip"))
     j1 = vf.judge_records(ctx, "Trace_GraphLog", t1, sig_fn=sig, nontrivial_fn=nontrivial, chunk=ctx.q(1700, 4000))
